@@ -766,6 +766,82 @@ func runC09(c *Ctx) {
 		}
 	}
 
+	// ---- the PEM-producing entry points and the conversions to and from crypto/x509's certificate type: the same
+	// objects through other doors
+	{
+		for _, sg := range signers {
+			if sg.family == "rsa" && !c.Thorough {
+				continue
+			}
+			for i := 0; i < c.Q(6, 60); i++ {
+				rr := c.Rng(fmt.Sprintf("pemapi/%s/%d", sg.family, i))
+				tc := genTemplate(1000+i, rr)
+				t := tc.t
+				t.SignatureAlgorithm = sg.algs[i%len(sg.algs)]
+				w := map[string]interface{}{"signer": sg.family, "algorithm": algName(t.SignatureAlgorithm), "template_class": tc.cls}
+				var pemB []byte
+				var err error
+				if pi := mon.Guard(func() { pemB, err = gx509.CreateCertificateToPem(t, sg.cert, &subjPub.PublicKey, sg.key) }); pi != nil || err != nil {
+					rep.Violation("C09/CreateCertificateToPem/fails/"+sg.family, fmt.Sprint(pi, err), w)
+					continue
+				}
+				w["pem"] = string(pemB)
+				var p *gx509.Certificate
+				if pi := mon.Guard(func() { p, err = gx509.ReadCertificateFromPem(pemB) }); pi != nil || err != nil {
+					rep.Violation("C09/CreateCertificateToPem/does-not-read-back", fmt.Sprint(pi, err), w)
+					continue
+				}
+				for _, dd := range cmpCert(t, p) {
+					rep.Violation("C09/CreateCertificateToPem/field-mismatch/"+strings.Fields(dd)[0], dd, w)
+				}
+				if e := p.CheckSignatureFrom(sg.cert); e != nil {
+					rep.Violation("C09/CreateCertificateToPem/does-not-verify-under-issuer/"+sg.family, e.Error(), w)
+				}
+				if e := p.CheckSignatureFrom(sg.ocert); e == nil {
+					rep.Violation("C09/Certificate/verifies-under-other-key/"+sg.family, "(PEM entry point)", w)
+				}
+				// conversions: gmsm -> crypto/x509 -> gmsm keeps every field
+				var std *stdx509.Certificate
+				if pi := mon.Guard(func() { std, err = gx509.ParseSm2CertifateToX509(p.Raw) }); pi != nil || err != nil || std == nil {
+					rep.Violation("C09/ParseSm2CertifateToX509/fails", fmt.Sprint(pi, err), w)
+				} else {
+					if !bytes.Equal(std.Raw, p.Raw) || !bytes.Equal(std.RawTBSCertificate, p.RawTBSCertificate) || std.SerialNumber.Cmp(p.SerialNumber) != 0 ||
+						!std.NotBefore.Equal(p.NotBefore) || !std.NotAfter.Equal(p.NotAfter) || std.Subject.String() != stdNameString(p.Subject) || !reflect.DeepEqual(std.DNSNames, p.DNSNames) ||
+						std.IsCA != p.IsCA || int(std.KeyUsage) != int(p.KeyUsage) || !bytes.Equal(std.Signature, p.Signature) {
+						rep.Violation("C09/ToX509Certificate/field-mismatch", "", w)
+					}
+					back := &gx509.Certificate{}
+					if pi := mon.Guard(func() { back.FromX509Certificate(std) }); pi != nil {
+						rep.Violation("C09/FromX509Certificate/panic/"+pi.Func, pi.Value, w)
+					} else if !bytes.Equal(back.Raw, p.Raw) || back.SerialNumber.Cmp(p.SerialNumber) != 0 || !reflect.DeepEqual(flatName(back.Subject), flatName(p.Subject)) ||
+						!reflect.DeepEqual(back.DNSNames, p.DNSNames) || back.IsCA != p.IsCA || back.KeyUsage != p.KeyUsage || !back.NotAfter.Equal(p.NotAfter) {
+						rep.Violation("C09/FromX509Certificate/field-mismatch", "", w)
+					}
+				}
+				rep.Eval(fmt.Sprintf("pem-api/certificate/%s/%s", sg.family, tc.cls))
+				// request
+				rt := &gx509.CertificateRequest{Subject: pkix.Name{CommonName: fmt.Sprintf("pem-csr-%d", i), Organization: []string{"Org"}}, DNSNames: []string{"csr.example"}, SignatureAlgorithm: t.SignatureAlgorithm}
+				var cpem []byte
+				if pi := mon.Guard(func() { cpem, err = gx509.CreateCertificateRequestToPem(rt, sg.key) }); pi != nil || err != nil {
+					rep.Violation("C09/CreateCertificateRequestToPem/fails/"+sg.family+"/"+algName(t.SignatureAlgorithm), fmt.Sprint(pi, err), w)
+					continue
+				}
+				var pr *gx509.CertificateRequest
+				if pi := mon.Guard(func() { pr, err = gx509.ReadCertificateRequestFromPem(cpem) }); pi != nil || err != nil {
+					rep.Violation("C09/CreateCertificateRequestToPem/does-not-read-back", fmt.Sprint(pi, err), map[string]interface{}{"pem": string(cpem)})
+					continue
+				}
+				if pr.Subject.CommonName != rt.Subject.CommonName || !reflect.DeepEqual(pr.DNSNames, rt.DNSNames) {
+					rep.Violation("C09/CreateCertificateRequestToPem/field-mismatch", "", map[string]interface{}{"pem": string(cpem)})
+				}
+				if e := pr.CheckSignature(); e != nil {
+					rep.Violation("C09/CreateCertificateRequestToPem/does-not-verify/"+sg.family+"/"+algName(t.SignatureAlgorithm), e.Error(), map[string]interface{}{"pem": string(cpem)})
+				}
+				rep.Eval(fmt.Sprintf("pem-api/request/%s", sg.family))
+			}
+		}
+	}
+
 	// ---- CSRs
 	nR := c.Q(40, 600)
 	Par(nR*len(signers), func(idx int) {
@@ -1022,3 +1098,6 @@ func flatName(n pkix.Name) []string {
 	}
 	return out
 }
+
+// stdNameString renders a gmsm-parsed name the way crypto/x509/pkix does (the types are the same underneath).
+func stdNameString(n pkix.Name) string { return n.String() }
